@@ -18,11 +18,12 @@ RULE = (
     "within 16*eps32*(1 + (|a|*max|x|+|b|)/(|a|*scale)); axes: per-axis scale/z = the 1-D estimator applied to each "
     "lane (1e-9 relative), axis=None = estimator on the flattened data, result shapes broadcast against the input; "
     "finite: every z finite, constant lane -> scale replaced by 1 -> z=0; containers: FilterbankBlock.normalise / "
-    "TimeSeries.normalise = estimate_zscore of their data. Non-trivial = non-constant data and (a!=1 or b!=0 or 2-D)."
+    "TimeSeries.normalise = estimate_zscore of their data; layout: the same values in F-order / transposed / strided / reversed views give the same result. Non-trivial = non-constant data and (a!=1 or b!=0 or 2-D)."
 )
 ASSUMPTIONS = [
     "doublemad returns a per-element scale (left/right MAD by side of the median): under a<0 the sides swap, so its scale relation is asserted only at elements different from the median (its z relation everywhere)",
     "data live on a 1/16 grid so that no non-zero scale falls below the library's 1e-8 zero test after scaling by 1e-2",
+    "diffcov (sqrt|cov| of successive differences) is ill-conditioned when outliers dominate: its z-score relation is asserted on the numerators z*scale, its scale relation on exact float64 data",
 ]
 
 METHODS = ["std", "iqr", "mad", "doublemad", "diffcov", "biweight", "qn", "sn", "gapper"]
@@ -86,7 +87,8 @@ def strat_case(draw):
     return {"shape": shape, "axis": axis, "method": draw(st.sampled_from(METHODS)),
             "loc": draw(st.sampled_from(["median", "mean", "norm"])),
             "family": draw(st.sampled_from(["spread", "spread", "ties", "const", "outliers", "const_lane"])),
-            "seed": draw(st.integers(0, 2**31 - 1)), "a": a, "b16": draw(st.integers(-1600, 1600))}
+            "seed": draw(st.integers(0, 2**31 - 1)), "a": a, "b16": draw(st.integers(-1600, 1600)),
+            "layout": draw(st.sampled_from(["C", "C", "F", "transposed_view", "strided_view", "reversed_view"]))}
 
 
 def lanes_of(x, axis):
@@ -226,10 +228,33 @@ def check(case, ctx):
             med = np.median(x, axis=axis, keepdims=True)
             m = m & np.broadcast_to(x != med, x.shape)
         diff = np.abs(np.asarray(zy.data, dtype=np.float64) - np.sign(a) * np.asarray(zx.data, dtype=np.float64))
+        if method == "diffcov":
+            # sqrt|cov| of successive differences cancels catastrophically when outliers dominate: the float32
+            # rounding of a*x+b inside estimate_zscore then moves the *scale* by far more than eps32 (a property of
+            # the estimator's conditioning, not of the z-score code).  For this method the relation is asserted on
+            # the numerators: z(y)*scale(y) = a * z(x)*scale(x), and the scale relation itself on exact float64 data
+            # (above).
+            num_y = np.asarray(zy.data, dtype=np.float64) * sy_b
+            num_x = np.asarray(zx.data, dtype=np.float64) * sc
+            diff = np.abs(num_y - a * num_x)
+            tol = 16 * EPS32 * (abs(a) * amax + abs(b)) * (1 + np.abs(np.asarray(zx.data, dtype=np.float64)) * 0 + 1)
         if np.any(diff[m] > tol[m]):
             i = tuple(int(v) for v in np.argwhere((diff > tol) & m)[0])
             raise Violation("zscore:not-equivariant", f"{ctxt}: element {list(i)}: z(x)={np.asarray(zx.data)[i]!r} z(a*x+b)={np.asarray(zy.data)[i]!r}")
-    labels = [method, loc, f"axis{axis}", case["family"], f"{len(case['shape'])}d"]
+    # ---- memory layout is not part of the value: the same numbers in another layout give the same answer
+    lay = case.get("layout", "C")
+    if lay != "C":
+        from vlib.strategies import relayout
+
+        xv = relayout(x, lay)
+        assert np.array_equal(xv, x)
+        sv = np.asarray(scale_of(xv, axis))
+        if sv.shape != sx.shape or not rel_close(sv, sx, tol=1e-12, atol=ATOL / abs(a) * 1e-3):
+            raise Violation("scale:layout-dependent", f"{ctxt} layout={lay}: scale {np.asarray(sv).reshape(-1).tolist()[:4]} differs from the C-contiguous result {np.asarray(sx).reshape(-1).tolist()[:4]}")
+        zv = z_of(xv, axis)
+        if not np.allclose(np.asarray(zv.data), np.asarray(zx.data), rtol=1e-6, atol=1e-6):
+            raise Violation("zscore:layout-dependent", f"{ctxt} layout={lay}")
+    labels = [method, loc, f"axis{axis}", case["family"], f"{len(case['shape'])}d", f"layout_{lay}"]
     if len(case["shape"]) == 2 and 1 in case["shape"]:
         labels.append("single_lane")
     if a < 0:
